@@ -30,8 +30,8 @@ THEOREMS = [
     "PV.C19.char_eq",
     "PV.C19.bytes_eq",
     "PV.C19.float_layout_eq",
-    "PV.C19.float_eq_partial",
-    "PV.C19.float_precision_panics",
+    "PV.C19.float_eq",
+    "PV.C19.float_precision_over_u16_repaired",
     "PV.C19.no_panic_partial",
 ]
 TRUSTED = [
@@ -41,8 +41,7 @@ TRUSTED = [
     "lean/PV/C19/Spec.lean as the meaning of Python's % operator, validated against CPython 3.11 on every run "
     "(spec-validation obligations: same request sets as the correspondence streams)",
     "BigInt::to_str_radix modelled as positional notation (Types.toRadix); Rust float formatting "
-    "{:.N} / {:.Ne} modelled by PV.Dec.toFixedL / toExpL (exact decimal arithmetic, owned by C17); "
-    "rustc >= 1.87 format! precision limit (u16) modelled as a panic above 65535",
+    "{:.N} / {:.Ne} modelled by PV.Dec.toFixedL / toExpL (exact decimal arithmetic, owned by C17)",
     "str::chars().count() = number of scalar values; u8 -> char is Latin-1",
     "tools/props/c19.py (generators, CPython oracle), harness/src/bin/pvh_c19.rs, lean/Drv/C19.lean",
 ]
@@ -52,10 +51,11 @@ PARTIAL = [
     "reject the template for a 'b' conversion",
     "InDomain excludes templates of 2^31-1 or more characters and digit runs above 2^31-1 (the code reports "
     "IntTooBig for widths Python accepts up to 2^63-1: witness width_over_i32_rejected)",
-    "floats: float_eq_partial proves format_float = the C-printf reference over the exact digits of PV.Dec for "
-    "precision <= 65530, with the hypothesis (for %g only) that the digit generator returns the P significant "
-    "digits asked for; that PV.Dec's digits are Rust's {:.N}/{:.Ne} digits and CPython's is sampled by "
-    "correspondence / spec validation, not proved; precisions above 65535 panic (float_precision_panics)",
+    "floats: float_eq proves format_float = the C-printf reference over the exact digits of PV.Dec for every spec "
+    "of float type, every precision and every double (no hypothesis left since the format! precision fix: the "
+    "digit clamp of float.rs is proved exact in PV.C17.Clamp, the %g mantissa length is a theorem); that "
+    "PV.Dec's digits are Rust's {:.N}/{:.Ne} digits and CPython's is sampled by correspondence / spec "
+    "validation, not proved",
     "'*' quantities are left to the caller by the library: formatting theorems are stated for resolved specs",
 ]
 READY = True
@@ -67,7 +67,7 @@ LEVEL_TEXT = ("Machine-checked Lean 4 theorems, for templates and arguments of e
               "the 'b' conversion the code wrongly accepts); integer, string, character and bytes formatting equal "
               "the reference layout (zero padding after sign and prefix, '-' over '0', precision as minimum digits / "
               "truncation) for every spec and argument (bytes formatting since fix 86620af); floats equal the "
-              "C-printf reference for precision <= 65530; no modelled path panics inside the stated domain. The model is tied to the Rust code, and the reference to "
+              "C-printf reference for every precision and double (since the format! precision fix); no modelled path panics inside the stated domain. The model is tied to the Rust code, and the reference to "
               "CPython, by exhaustive short templates and random longer ones on every run.")
 LEVEL_NOTE = ("Trusted: Lean kernel, model fidelity as sampled by correspondence (all templates of <= 4/5 symbols over a "
               "27-symbol alphabet, text and bytes), bigint and float digit generation (modelled by positional "
@@ -259,14 +259,6 @@ def _views_of(ws):
     return U(n, f, unhex(ws[5]).decode(), unhex(ws[6]).decode(), unhex(ws[8])), unhex(ws[7]).decode()
 
 
-def _float_prec_big(specs):
-    for m in specs:
-        p = m.group('prec')
-        if m.group('type') in b'eEfFgG' and p and p != b'*' and int(p) >= 65533:
-            return True
-    return False
-
-
 # ------------------------------------------------------------------ oracle
 
 def _judge_split(mode, tmpl, out):
@@ -445,22 +437,7 @@ def classify(req, impl_out, model_out, failure):
                                                         for d in re.findall(rb"\d+", lat)):
                 return 'width-over-i32-rejected'
             return None
-        u, asc = _views_of(ws)
-        if impl_out == 'panic':
-            if _float_prec_big(specs):
-                return 'float-precision-over-65535-panics'
-            return None
         return None
-    if op == 'cfmt':
-        spec = unhex(ws[1]).decode()
-        lat = _lat('t', spec)
-        if lat is None:
-            return None
-        specs = find_specs(lat)
-        if impl_out == 'panic':
-            if ws[2] == 'f' and _float_prec_big(specs):
-                return 'float-precision-over-65535-panics'
-            return None
     return None
 
 
@@ -589,9 +566,6 @@ def _ok_for_random(mode, tmpl, u):
     lat = _lat(mode, tmpl)
     if lat is None:
         return False
-    specs = find_specs(lat)
-    if _float_prec_big(specs):
-        return False
     return True
 
 
@@ -644,13 +618,32 @@ def _known_probes():
         _split_req('t', "%b"),                                       # text-percent-b-accepted
         _split_req('t', "%b%"),
         _render_req('t', "%5b", u),
-        f"cfmt {hexs('%.65536f')} f {fbits(1.5)}",                   # float-precision-over-65535-panics
-        f"cfmt {hexs('%.65535e')} f {fbits(1.5)}",
-        f"cfmt {hexs('%.65535g')} f {fbits(1e-5)}",
-        f"cfmt {hexs('%.65533g')} f {fbits(0.0001)}",
         _split_req('t', "%2147483648d"),                             # width-over-i32-rejected
         _split_req('b', b"%9223372036854775807s"),
     ]
+
+
+def _float_precision_probes(ctx):
+    """float-precision-over-65535-panics, fixed in /repo by 1c70d07: ordinary requests now (a panic is a
+    VIOLATION).  Precisions around format!'s u16 limit, around the digit clamp of float.rs (1100) and around
+    the last non-zero digit a double can have, on the doubles with the most digits."""
+    reqs = [f"cfmt {hexs('%.65536f')} f {fbits(1.5)}", f"cfmt {hexs('%.65535e')} f {fbits(1.5)}",
+            f"cfmt {hexs('%.65535g')} f {fbits(1e-5)}", f"cfmt {hexs('%.65533g')} f {fbits(0.0001)}",
+            _render_req('t', "%.65536f|%.65536e|%#.65536g", VALUES[1]), _render_req('b', b"%070010.70000f", VALUES[2])]
+    vals = [5e-324, 2.225073858507201e-308, 2.2250738585072014e-308, 1.7976931348623157e308, 0.1, 1.5, 1e-5, 0.0001,
+            -123456789.0, 0.0, float('inf'), float('nan')]
+    precs = [750, 751, 752, 766, 767, 768, 1073, 1074, 1075, 1099, 1100, 1101, 1102, 1103, 1500,
+             65533, 65534, 65535, 65536, 65537, 70000]
+    for v in (vals[:4] + vals[5:7] if ctx.quick else vals):
+        for p in precs:
+            for t in 'feg' if ctx.quick else 'fFeEgG':
+                for fl in (('',) if (p > 2000 and ctx.quick) else ('', '#')):
+                    reqs.append(f"cfmt {hexs('%' + fl + '.' + str(p) + t)} f {fbits(v)}")
+    reqs += [f"cfmt {hexs('%.200000f')} f {fbits(0.1)}", f"cfmt {hexs('%.200000e')} f {fbits(0.1)}",
+             f"cfmt {hexs('%#.200000g')} f {fbits(1e-9)}", f"cfmt {hexs('%-70010.70000e')} f {fbits(-2.5)}"]
+    if not ctx.quick:
+        reqs += [f"cfmt {hexs('%.1000000f')} f {fbits(5e-324)}", f"cfmt {hexs('%.1000000e')} f {fbits(5e-324)}"]
+    return reqs
 
 
 def _boundary_probes():
@@ -802,7 +795,11 @@ def streams(ctx):
            Stream("known-finding-probes", _known_probes(), kind="directed", nontrivial=nt,
                   note="one deterministic request per listed known finding"),
            Stream("finding-boundaries", _boundary_probes(), kind="directed", nontrivial=nt,
-                  note="inputs just inside the domain next to each finding")]
+                  note="inputs just inside the domain next to each finding"),
+           Stream("float-precision-clamp-and-u16-limit", _float_precision_probes(ctx), kind="directed", nontrivial=nt,
+                  note="former finding float-precision-over-65535-panics (repaired): %e %f %g at precisions around "
+                       "format!'s u16 limit (65533..65537, 70000, 200000), around MAX_FLOAT_DIGITS = 1100 and around "
+                       "the last non-zero digit of a double (751/767 significant digits, 1074 decimals)")]
     out.append(Stream("character-tables", _char_tables(), kind="exhaustive", exhaustive=True, nontrivial=nt,
                       note="every byte and every scalar value below U+0250 (plus samples above) as conversion type "
                            "(`%c`) and in modifier position (`%cd`, `%5cd`, `%.cd`): the type, flag, digit, "
